@@ -341,9 +341,22 @@ class SymStr(object):
                 return i
         return -1
 
+    def _in_set(self, ch, chars):
+        """does the character belong to the concrete set `chars`?  (one branch on the disjunction)"""
+        if not isinstance(chars, str):
+            raise Unsupported("strip with a symbolic character set")
+        if isinstance(ch, str):
+            return ch in chars
+        if not chars:
+            return False
+        return self.e.branch(z3.Or([ch.z == ord(k) for k in chars]))
+
     def lstrip(self, chars=None):
         if chars is not None:
-            raise Unsupported("lstrip(chars)")
+            i = 0
+            while i < len(self.c) and self._in_set(self.c[i], chars):
+                i += 1
+            return SymStr(self.e, self.c[i:])
         i = 0
         while i < len(self.c) and _cspace(self.e, self.c[i]):
             i += 1
@@ -351,7 +364,10 @@ class SymStr(object):
 
     def rstrip(self, chars=None):
         if chars is not None:
-            raise Unsupported("rstrip(chars)")
+            j = len(self.c)
+            while j > 0 and self._in_set(self.c[j - 1], chars):
+                j -= 1
+            return SymStr(self.e, self.c[:j])
         j = len(self.c)
         while j > 0 and _cspace(self.e, self.c[j - 1]):
             j -= 1
